@@ -33,7 +33,7 @@ class Job:
 
     def __init__(self, name, code, desc, timeout=600, allow=(), kf=None,
                  kani_args=(), mem_gb=12, group=None, unwind=None, expect_covers=True,
-                 inst=None, bounds=None):
+                 inst=None, bounds=None, expect_fail=()):
         self.name = name          # harness fn name (unique in crate)
         self.code = code          # Rust source emitted into gen file
         self.desc = desc          # obligation in words (evidence sample)
@@ -46,6 +46,7 @@ class Job:
         self.unwind = unwind
         self.inst = inst          # type instantiation text
         self.bounds = bounds      # free text of the bound of this obligation
+        self.expect_fail = list(expect_fail)  # regexes: a failing check matching each must exist (must-panic)
 
 
 class Result:
